@@ -68,8 +68,8 @@ MANIFEST_ENTRY = dict(
          "reference's analysis and counted.",
     note="Trusted: ref/expr.py evaluator and the 40-line reference simulator in this module. Values come from small "
          "fixed tables (rotated by the seed); spans other than 4 periods, lags beyond 2, RHS pseudofunctions, custom "
-         "plan name formats and shift= are not covered. Known finding: the exogenized residual is 'needed - input "
-         "residual' (equation off by the input residual at exogenized points).")
+         "plan name formats and shift= are not covered. The defect found here (exogenized residual = 'needed - input "
+         "residual') was repaired in /repo (f603713, DESIGN.md 9.3).")
 ASSUMPTIONS = [
     "an order 'computes every value before it is read' iff every LHS variable read inside the span was written earlier "
     "in that order; pairs failing this are excluded (decided by the reference alone), not judged",
